@@ -3,6 +3,7 @@ import StubGen.Driver.Json
 import StubGen.Driver.ApiJson
 import StubGen.Driver.DocJson
 import StubGen.Driver.SrcJson
+import StubGen.Driver.ToolJson
 import StubGen.Model.Naming
 import StubGen.Model.Types
 import StubGen.Model.Discovery
@@ -29,6 +30,7 @@ def handle (j : Json) : Json :=
   | "gen" => runGen j
   | "doc" => runDoc j
   | "analyze" => runAnalyze j
+  | "tool" => runToolOp j
   | "discover" =>
     let parts := fun (x : Json) => match x with
       | .arr a => a.toList.filterMap fun y => match y with | .str s => some s | _ => none
